@@ -123,7 +123,7 @@ pub(crate) mod __verif_protomsgs {
     }
 
     stubs! {
-    //@ H name=msg_varints kind=complete tier=quick timeout=1500 oblig="prototk_derive::varint-fields::size+roundtrip"
+    //@ H name=msg_varints kind=complete tier=experimental timeout=7200 oblig="prototk_derive::varint-fields::size+roundtrip"
     #[kani::proof]
     #[kani::unwind(12)]
     fn msg_varints() {
@@ -132,7 +132,7 @@ pub(crate) mod __verif_protomsgs {
     } }
 
     stubs! {
-    //@ H name=msg_zigzags kind=complete tier=quick timeout=1500 oblig="prototk_derive::zigzag+bool-fields::size+roundtrip"
+    //@ H name=msg_zigzags kind=complete tier=experimental timeout=7200 oblig="prototk_derive::zigzag+bool-fields::size+roundtrip"
     #[kani::proof]
     #[kani::unwind(12)]
     fn msg_zigzags() {
@@ -150,7 +150,7 @@ pub(crate) mod __verif_protomsgs {
     } }
 
     stubs! {
-    //@ H name=msg_floats kind=complete tier=quick timeout=1500 oblig="prototk_derive::float-fields::size+roundtrip(bit patterns)"
+    //@ H name=msg_floats kind=complete tier=experimental timeout=7200 oblig="prototk_derive::float-fields::size+roundtrip(bit patterns)"
     #[kani::proof]
     #[kani::unwind(12)]
     fn msg_floats() {
@@ -162,7 +162,7 @@ pub(crate) mod __verif_protomsgs {
     // standard wire encoding of a single uint64 field: tag byte (5<<3|0) then the varint; default
     // (zero) is omitted or encoded -- either way it must decode back
     stubs! {
-    //@ H name=msg_one_wire_format kind=complete tier=quick timeout=1500 oblig="prototk_derive::uint64-field::wire-format"
+    //@ H name=msg_one_wire_format kind=complete tier=experimental timeout=7200 oblig="prototk_derive::uint64-field::wire-format"
     #[kani::proof]
     #[kani::unwind(12)]
     fn msg_one_wire_format() {
@@ -182,7 +182,7 @@ pub(crate) mod __verif_protomsgs {
 
     // unknown fields are skipped without disturbing known ones
     stubs! {
-    //@ H name=msg_unknown_fields_skipped kind=complete tier=quick timeout=1500 oblig="prototk_derive::unknown-fields-skipped"
+    //@ H name=msg_unknown_fields_skipped kind=complete tier=experimental timeout=7200 oblig="prototk_derive::unknown-fields-skipped"
     #[kani::proof]
     #[kani::unwind(12)]
     fn msg_unknown_fields_skipped() {
@@ -199,7 +199,7 @@ pub(crate) mod __verif_protomsgs {
     } }
 
     stubs! {
-    //@ H name=msg_nested kind=complete tier=quick timeout=1500 oblig="prototk_derive::nested-message::size+roundtrip"
+    //@ H name=msg_nested kind=complete tier=experimental timeout=7200 oblig="prototk_derive::nested-message::size+roundtrip"
     #[kani::proof]
     #[kani::unwind(12)]
     fn msg_nested() {
@@ -208,7 +208,7 @@ pub(crate) mod __verif_protomsgs {
     } }
 
     stubs! {
-    //@ H name=msg_option_vec kind=bounded tier=quick timeout=1800 bound="repeated field with <= 2 elements" oblig="prototk_derive::option+repeated::size+roundtrip"
+    //@ H name=msg_option_vec kind=bounded tier=experimental timeout=7200 bound="repeated field with <= 2 elements" oblig="prototk_derive::option+repeated::size+roundtrip"
     #[kani::proof]
     #[kani::unwind(12)]
     fn msg_option_vec() {
@@ -234,7 +234,7 @@ pub(crate) mod __verif_protomsgs {
     } }
 
     stubs! {
-    //@ H name=msg_oneof kind=complete tier=quick timeout=1800 oblig="prototk_derive::enum-with-payload::size+roundtrip"
+    //@ H name=msg_oneof kind=complete tier=experimental timeout=7200 oblig="prototk_derive::enum-with-payload::size+roundtrip"
     #[kani::proof]
     #[kani::unwind(12)]
     fn msg_oneof() {
@@ -246,7 +246,7 @@ pub(crate) mod __verif_protomsgs {
     } }
 
     stubs! {
-    //@ H name=msg_bytes kind=bounded tier=quick timeout=1800 bound="bytes payload length <= 2; bytes16 full domain" oblig="prototk_derive::bytes-fields::size+roundtrip"
+    //@ H name=msg_bytes kind=bounded tier=experimental timeout=7200 bound="bytes payload length <= 2; bytes16 full domain" oblig="prototk_derive::bytes-fields::size+roundtrip"
     #[kani::proof]
     #[kani::unwind(20)]
     fn msg_bytes() {
@@ -270,7 +270,7 @@ pub(crate) mod __verif_protomsgs {
 
     // arbitrary bytes into a derived decoder: never panics
     stubs! {
-    //@ H name=msg_decode_total kind=bounded tier=quick timeout=2400 bound="byte strings of length <= 10" oblig="prototk_derive::unpack::total"
+    //@ H name=msg_decode_total kind=bounded tier=experimental timeout=7200 bound="byte strings of length <= 10" oblig="prototk_derive::unpack::total"
     #[kani::proof]
     #[kani::unwind(13)]
     fn msg_decode_total() {
